@@ -531,6 +531,10 @@ class Engine:
                 return z3.And(a.ty.sort().is_some(a.t), self.equal(V(a.ty.t, a.ty.sort().v(a.t)), b, n, st))
             if isinstance(b.ty, TOpt) and not isinstance(a.ty, TOpt):
                 return self.equal(b, a, n, st)
+            for x, y in ((a, b), (b, a)):
+                hook = self.reg.lookup_method(getattr(x.ty, "name", ""), "__eq_other__")
+                if hook is not None and x.t.sort() != y.t.sort():
+                    return hook(self, x, y, n, st)
             if a.t.sort() == b.t.sort() and isinstance(a.ty, TSeq):
                 return SQ.eq(a.t, b.t)
             if a.t.sort() == b.t.sort():
